@@ -7,7 +7,9 @@ use symcore::*;
 pub fn instances(tier: &str) -> Vec<String> {
     let mut v = Vec::new();
     let (umax, vmax) = if tier == "thorough" { (7, 5) } else { (5, 3) };
-    for la in 1..=umax { for lb in 1..=vmax { v.push(format!("div:la={},lb={}", la, lb)); } }
+    // fp=1: the bit-precise float clause is checked too (cvc5 queries are seconds each, so on smaller sizes)
+    let fp_ok = |la: usize, lb: usize| if tier == "thorough" { la <= 4 && lb <= 3 } else { la <= 3 && lb <= 2 };
+    for la in 1..=umax { for lb in 1..=vmax { v.push(format!("div:la={},lb={},fp={}", la, lb, if fp_ok(la, lb) { 1 } else { 0 })); } }
     for lb in 0..=3 { v.push(format!("zero:la=3,lb={}", lb)); }
     v
 }
@@ -52,12 +54,19 @@ pub fn body(inst: &str) {
             }
             // "for every float input": wherever the loop took a coefficient to be zero only because it
             // cancels over the reals, the same term must be zero for all finite doubles in range.
-            if !is_concrete() {
+            if !is_concrete() && geti(&p, "fp") == 1 {
                 let mut dom: Vec<B> = Vec::new();
                 for v in a.iter().chain(b.iter()) { dom.push(le(Sym::lit(1.0e-3), v.abs())); dom.push(le(v.abs(), Sym::lit(1.0e3))); }
-                for (site, atom) in implied_equalities() {
+                for (site, atom, pc) in implied_equalities() {
                     let f = site_fn(&site);
-                    if f.ends_with("::trim") || f.ends_with("::is_zero") { prove_fp(FLOAT_LABEL, &dom, atom); }
+                    if f.ends_with("::trim") || f.ends_with("::is_zero") {
+                        // hypotheses: the input domain and the branch facts of the path up to that test, read in FP
+                        let mut hyp = dom.clone();
+                        hyp.extend(pc.into_iter());
+                        let shown = if let B::Eq(x, y) = &atom { format!("{} == {}", Sym { node: *x, lit: 0.0 }.show(), Sym { node: *y, lit: 0.0 }.show()) } else { String::new() };
+                        let r = prove_fp(FLOAT_LABEL, &hyp, atom);
+                        if r != Proof::Solver { note(format!("FP {:?} at {} ({}): {}", r, f, site, shown)); }
+                    }
                 }
             }
             // operands untouched
